@@ -449,6 +449,14 @@ pub fn check_emitted(ctx: &mut Ctx, case: &(u8, Vec<u8>, Value, bool, u8)) -> Re
     let store = RefStore::new(Disc::Full);
     let cfg = AuthCfg { hmac: HmacCfg::ALL[*hmac as usize % 5], counter: true, ..Default::default() };
     let auth = cer::build_authenticator(store, ScriptedUv::new(UvScript::verified()), &cfg);
+    // the transports the authenticator reports end up in the emitted credential: none, one, the default two
+    use passkey_types::webauthn::AuthenticatorTransport as T;
+    let auth = match challenge.len() % 4 {
+        0 => auth.transports(vec![]),
+        1 => auth.transports(vec![T::Usb]),
+        2 => auth.transports(vec![T::Internal, T::Hybrid, T::Ble, T::Nfc]),
+        _ => auth,
+    };
     let mut client = Client::new_with_custom_tld_provider(auth, HProvider::new(ProviderKind::Default)).allows_insecure_localhost(true);
     let ext = with_prf.then(|| passkey_types::webauthn::AuthenticationExtensionsClientInputs {
         cred_props: Some(true),
